@@ -189,7 +189,8 @@ def extract_nbt(
 
 
 def __str_slice(token: Token, tokenizer: Tokenizer) -> str:
-    slices = token.string[1:-1].split(":")
+    # the bracket is re-tokenised, so that blanks, line breaks and comments in it are not part of the bounds
+    slices = clean_up_paren_token(token, tokenizer)[1:-1].split(":")
     if not slices or len(slices) > 2:
         raise JMCSyntaxException("Expected operator after nbt", token, tokenizer)
     if not slices[1]:
@@ -217,7 +218,7 @@ def __get_type_scale(
         scale = tokens[0].string
         del tokens[:2]
     if tokens[0].token_type == TokenType.PAREN_ROUND:
-        type_ = tokens[0].string[1:-1].strip()
+        type_ = clean_up_paren_token(tokens[0], tokenizer)[1:-1]
         if type_ not in (
             "byte",
             "short",
